@@ -581,3 +581,82 @@ def type_facts(guards, param):
                 known[open_[0][0]] = open_[0][1]
                 changed = True
     return known
+
+
+def range_facts(guards, key: str, length: str):
+    """(lower, upper): whether the path's guards establish  0 <= key  and  key < length  (texts of the expressions)"""
+    lower = upper = False
+    zero = ("0",)
+
+    def rel(a, op, b, pol):
+        """normalised relation text  a OP b  that is known to hold"""
+        neg = {ast.Lt: ast.GtE, ast.GtE: ast.Lt, ast.Gt: ast.LtE, ast.LtE: ast.Gt, ast.Eq: ast.NotEq, ast.NotEq: ast.Eq}
+        if not pol:
+            if type(op) not in neg:
+                return None
+            op = neg[type(op)]()
+        return norm(a).replace(" ", ""), type(op), norm(b).replace(" ", "")
+
+    def feed(r):
+        nonlocal lower, upper
+        if r is None:
+            return
+        a, op, b = r
+        k, L = key.replace(" ", ""), length.replace(" ", "")
+        if (a in zero and b == k and op is ast.LtE) or (a == k and b in zero and op is ast.GtE) or (a == k and b == "-1" and op is ast.Gt) or (a == "-1" and b == k and op is ast.Lt):
+            lower = True
+        if (a == k and b == L and op is ast.Lt) or (a == L and b == k and op is ast.Gt) or (a == k and b == L + "-1" and op is ast.LtE) or (a == L + "-1" and b == k and op is ast.GtE):
+            upper = True
+
+    for t, pol in flat_facts(guards):
+        if isinstance(t, ast.Compare):
+            if len(t.ops) == 1:
+                feed(rel(t.left, t.ops[0], t.comparators[0], pol))
+            elif pol:
+                items = [t.left] + list(t.comparators)
+                for a, op, b in zip(items, t.ops, items[1:]):
+                    feed(rel(a, op, b, True))
+    return lower, upper
+
+
+def consistent_assignments(guards, atoms):
+    """atoms: {name: recogniser(expr) -> True/False/None}, where a recogniser says whether an expression IS the atom (True), its
+    negation (False) or something else (None). Returns the set of assignments (tuples of booleans in the order of `atoms`)
+    under which every guard of the path can have its recorded outcome; sub-expressions that are no atom are unconstrained."""
+    import itertools
+    names = list(atoms)
+
+    def ev(e, asg):
+        for i, n_ in enumerate(names):
+            r = atoms[n_](e)
+            if r is True:
+                return asg[i]
+            if r is False:
+                return not asg[i]
+        if isinstance(e, ast.UnaryOp) and isinstance(e.op, ast.Not):
+            v = ev(e.operand, asg)
+            return None if v is None else not v
+        if isinstance(e, ast.BoolOp):
+            vals = [ev(v, asg) for v in e.values]
+            if isinstance(e.op, ast.And):
+                if any(v is False for v in vals):
+                    return False
+                return True if all(v is True for v in vals) else None
+            if any(v is True for v in vals):
+                return True
+            return False if all(v is False for v in vals) else None
+        if isinstance(e, ast.Constant):
+            return bool(e.value)
+        return None
+
+    out = set()
+    for asg in itertools.product((True, False), repeat=len(names)):
+        okk = True
+        for t, pol in guards:
+            v = ev(t, asg)
+            if v is not None and v != pol:
+                okk = False
+                break
+        if okk:
+            out.add(asg)
+    return out
